@@ -186,7 +186,7 @@ def run_history(sc, seed, i, known, stats):
     state = {}
     viol, hits, diffs, cases, obs = [], {}, [], [], []
     steps = r.randrange(3, 6)
-    use_delete = "delete" in name or (r.random() < 0.25 and name in ("cache", "resume"))   # a --delete run removes its own database (KF1): plain db histories keep it
+    use_delete = "delete" in name or (r.random() < 0.25 and name in ("cache", "resume", "state"))   # a --delete run removes its own database (KF1): plain db histories keep it
     thr = r.choice([50, 100, 30])
     history = []
     for k in range(1, steps + 1):
@@ -210,8 +210,8 @@ def run_history(sc, seed, i, known, stats):
         for which, dst, extra in (("plain", da, [a for a in plain if a != "--checksum"]), ("aux", db, [a for a in aux if a != "--checksum"])):
             ids = ew.Ids()
             hidden = set(p for x in dmg if x[0] == "valid-state" for p in x[1]) if which == "aux" else set()
-            # Caches.plan_resume: paths the state file lists as completed are not planned (state histories run without --delete:
-            # the deletion plan still sees the hidden paths, which the single source list of Engine.run cannot express)
+            # Caches.plan_resume: paths the state file lists as completed are not planned; the deletion plan still sees them
+            # (they reach Engine.run as kept-out entries)
             sel = (lambda sl: [t for t in sl if t[1] not in hidden]) if hidden else None
             case, ob, raw = ew.run_once(sc, src, dst, fl, ids, k=k, extra_args=extra, select=sel)
             stats["runs"] += 1
